@@ -599,6 +599,60 @@ pub fn run(ctx: &mut Ctx) {
         }
     }
     ctx.bounds.insert("periodic_histories".into(), json!(format!("{} histories of length 40 (period 1 and 2)", periodic.len())));
+    // many documents: N unrelated valid documents opened between two notifications for a faulty one
+    // (tables and caches with a capacity): the result must be what a server publishes for the faulty text alone
+    let sizes = [1usize, 7, 8, 9, 15, 16, 17, 31, 32, 33, 63, 64, 65, 127, 128, 129, 255, 256, 257];
+    let mut many_jobs: Vec<(usize, usize, &'static str)> = vec![];
+    for &n in &sizes {
+        for t in [1usize, 2, 3] {
+            for shape in ["reopen-same-document", "text-moves-to-another-document"] {
+                many_jobs.push((n, t, shape));
+            }
+        }
+    }
+    let many: Vec<(usize, usize, &'static str, Option<String>)> = many_jobs
+        .par_iter()
+        .map(|(n, t, shape)| {
+            let text = text_of(*t);
+            let alone = {
+                let mut s = MemSrv::new(None);
+                let o = s.step(&did_open("file:///w/a.st", 1, text));
+                let _ = Box::new(s).finish();
+                o.msgs.iter().filter(|v| v["method"] == "textDocument/publishDiagnostics").last().map(crate::lspx::diag_set)
+            };
+            let mut s = MemSrv::new(None);
+            s.step(&did_open("file:///w/a.st", 1, text));
+            if *shape == "text-moves-to-another-document" {
+                s.step(&did_change("file:///w/a.st", 2, &[text_of(0)]));
+            }
+            for k in 0..*n {
+                let filler = format!("FUNCTION_BLOCK Fd{}\nVAR a : INT; END_VAR\n  a := {};\nEND_FUNCTION_BLOCK\n", k, k);
+                let o = s.step(&did_open(&format!("file:///w/d{}.st", k), 1, &filler));
+                if o.status != Status::Alive {
+                    return (*n, *t, *shape, Some(format!("the server is {:?} after opening document {}", o.status, k)));
+                }
+            }
+            let (uri, version) = if *shape == "text-moves-to-another-document" { ("file:///w/b.st", 1) } else { ("file:///w/a.st", 3) };
+            let o = if uri.ends_with("b.st") { s.step(&did_open(uri, version, text)) } else { s.step(&did_change(uri, version, &[text])) };
+            let _ = Box::new(s).finish();
+            let got = o.msgs.iter().filter(|v| v["method"] == "textDocument/publishDiagnostics" && v["params"]["uri"].as_str() == Some(uri)).last().map(crate::lspx::diag_set);
+            let problem = if o.status != Status::Alive {
+                Some(format!("the server is {:?}", o.status))
+            } else if got != alone {
+                Some(format!("published {:?}; a server holding only this text publishes {:?}", got, alone))
+            } else {
+                None
+            };
+            (*n, *t, *shape, problem)
+        })
+        .collect();
+    for (n, t, shape, problem) in many {
+        hist_count += 1;
+        if let Some(p) = problem {
+            ctx.fail(&format!("many-documents/{}/{}", shape, kind_of(t)), &format!("{} other documents open, text {}: {}", n, kind_of(t), p), json!({"mode":"contents","contents":format!("many-documents n={} text={} {}", n, kind_of(t), shape)}));
+        }
+    }
+    ctx.bounds.insert("many_documents".into(), json!("N in 1,7,8,9,…,255,256,257 unrelated documents x 3 faulty texts x {re-sent to the same document, moved to another document}"));
     ctx.evaluations = transitions + hist_count;
     ctx.extra.insert("histories_without_dedup".into(), json!(hist_count));
 
